@@ -167,6 +167,13 @@ func runChunk(run *rep.Run, rng *rand.Rand, eng, bal string, as [][]string, id i
 		f.Readmit()
 		st := f.W.Statuses()
 		for name, s := range st {
+			var bi int
+			fmt.Sscanf(name, "b%d", &bi)
+			if s != "healthy" && !f.ProbedOK(bi) {
+				// the probe did not get its 2xx answer inside the round (lost to load); nothing to judge
+				run.Inconclusive("re-admitting health round did not reach " + name)
+				continue
+			}
 			if s != "healthy" {
 				run.Violation("C04/readmission/not-healthy-after-health-round", fmt.Sprintf("%s is %q after a health round that it answered with 200", name, s), map[string]any{"engine": eng, "balancer": bal, "after_case": a})
 			}
